@@ -1,9 +1,13 @@
 (* C08 driver: replays an operation sequence on the extracted model of TrieState/storageDiff
-   (cfg_fixed = the code after the proposed fixes; cfg_pinned for diagnostics) and on the
+   (cfg_fixed = the code in /repo after fixes C08-1..6; cfg_pinned for diagnostics) and on the
    Substrate overlay specification.
-   model_eq : every observed token equals the model's.
-   prop_ok  : the reads (norm_obs) and the final contents equal the specification's, and the
-              final root is the root of the contents. *)
+   The implementation's tokens are parsed back into an [impl_view] (observations + final contents)
+   and both verdicts are the extracted Gallina predicates of coq/C08/ModelCheck.v evaluated on it:
+   model_eq : model_ok view ops  (and, redundantly, the rendered model string equals the trace)
+   prop_ok  : agrees_b view ops  (reads = the specification's reads, final contents = the
+              specification's, root flag set); ProofsCheck.v ties agrees_b to [agrees].
+   tags     : op kinds, nesting depth, guard hits, generator-independent branch buckets of the
+              model ("b-..."): one per branch of Model.step that the history reaches. *)
 open Model
 open Vutil
 
@@ -35,7 +39,8 @@ let show_obs = function
   | REntries l -> "E" ^ kv_str l
   | RKeys l -> "K[" ^ String.concat "," (List.map hex_of_bytes l) ^ "]"
 
-let children = ["11"; "22"]
+(* the child tries the harness prints in the final token (same list, same order) *)
+let children = ["11"; "22"; "33"]
 
 let show_final ((m, ch), root) =
   "F" ^ kv_str m ^
@@ -67,7 +72,7 @@ let parse_obs (t : string) : obs =
     | [d; a] -> RCount (n_of_hex d, a = "1")
     | _ -> fail "C08: bad token %s" t
 
-(* final token -> (main, children (present ones), root) *)
+(* final token -> ((main, children (present ones, in key order)), root) *)
 let parse_final (t : string) =
   match String.split_on_char '/' t with
   | m :: rest ->
@@ -79,20 +84,183 @@ let parse_final (t : string) =
         let v = String.sub p (String.length c + 1) (String.length p - String.length c - 1) in
         if v <> "absent" then ch := (bytes_of_hex c, parse_kv v) :: !ch
       | _ -> fail "C08: bad final %s" t) rest;
-    (main, List.rev !ch, !root)
+    ((main, List.rev !ch), !root)
   | _ -> fail "C08: bad final %s" t
 
-let rec norm_list ops xs = match ops, xs with
-  | o :: r, x :: xr -> norm_obs o x :: norm_list r xr
-  | _, _ -> []
+(* the implementation's view of a history: observations, final contents if printed *)
+let parse_view (obs : string) =
+  let otoks = split_ws obs in
+  let is_final t = String.length t > 0 && t.[0] = 'F' in
+  let fin = (match List.rev otoks with t :: _ when is_final t -> Some (parse_final t) | _ -> None) in
+  let otoks' = List.filter (fun t -> not (is_final t)) otoks in
+  (List.map parse_obs otoks', fin)
 
 let op_name s = List.hd (String.split_on_char ':' s)
+
+(* ---- coverage buckets: which branch of Model.step (cfg_fixed) an operation takes in state s *)
+let mem k m = om_mem k m
+let n_lt (a : n) (b : n) = int_of_n a < int_of_n b
+let hit = function Some _ -> "hit" | None -> "miss"
+let branch (o : op) (s : tstate) : string list =
+  let b = s.ts_state in
+  let depth = List.length s.ts_txs in
+  let outer = if depth = 1 then "outer" else "nested" in
+  let tx = (match s.ts_txs with [] -> None | d :: _ -> Some d) in
+  let lim_bucket p (d : sdiff) (sk : key list) (n : n) =
+    (* which clause of the limit proof (or the guard) a limited in-transaction clear falls in *)
+    let nk = n_of_int (List.length sk) in
+    let pend = List.exists (has_prefix p) (om_keys d.ups) in
+    let deleted_in_range = List.exists (fun k -> ks_mem k d.dels) sk in
+    [ (if limit_guard d p sk n then "lim-guard"
+       else if pend then "lim-all-pending" else if n_lt nk n then "lim-all" else "lim-first") ]
+    @ (if deleted_in_range && not (n_lt nk n) then ["lim-counts-deleted"] else [])
+    @ (if n = n_of_int 0 then ["lim-zero"] else []) in
+  match o, tx with
+  | OStart, None -> ["S-outer"] | OStart, Some _ -> ["S-nested"]
+  | OCommit, None -> ["C-panic"] | OCommit, Some _ -> ["C-" ^ outer]
+  | ORollback, None -> ["R-panic"] | ORollback, Some _ -> ["R-" ^ outer]
+  | OPut (_, v), None -> ["p-direct" ^ (if v = [] then "-emptyval" else "")]
+  | OPut (k, v), Some d ->
+    [(if ks_mem k d.d_main.dels then "p-tx-undelete" else if mem k d.d_main.ups then "p-tx-overwrite"
+      else if mem k b.bk_main then "p-tx-shadow" else "p-tx-new")] @ (if v = [] then ["p-tx-emptyval"] else [])
+  | OGet k, None -> ["g-direct-" ^ hit (om_get k b.bk_main)]
+  | OGet k, Some d ->
+    (match sd_get d.d_main k with
+     | (Some _, _) -> ["g-tx-pending"] | (None, true) -> ["g-tx-deleted"]
+     | _ -> ["g-tx-state-" ^ hit (om_get k b.bk_main)])
+  | ODel k, None -> ["d-direct-" ^ hit (om_get k b.bk_main)]
+  | ODel k, Some d ->
+    [(if mem k d.d_main.ups then "d-tx-pending" else if ks_mem k d.d_main.dels then "d-tx-again"
+      else if mem k b.bk_main then "d-tx-state" else "d-tx-absent")]
+  | OClearPrefix p, _ when covers_child_keys p -> ["cp-refused-" ^ (if tx = None then "direct" else "tx")]
+  | OClearPrefixLimit (p, _), _ when covers_child_keys p -> ["cl-refused-" ^ (if tx = None then "direct" else "tx")]
+  | OClearPrefix p, None ->
+    ["cp-direct" ^ (if mem p b.bk_main then "-keyeqprefix" else "")]
+  | OClearPrefix p, Some d ->
+    let sk = state_keys_with_prefix cfg_fixed b.bk_main p in
+    let pend = List.exists (has_prefix p) (om_keys d.d_main.ups) in
+    ["cp-tx-" ^ (match sk, pend with [], false -> "nothing" | [], true -> "pending" | _, false -> "state" | _, true -> "both")]
+    @ (if mem p b.bk_main then ["cp-tx-keyeqprefix"] else [])
+  | OClearPrefixLimit (p, n), None ->
+    let ks = keys_with_prefix p (om_keys b.bk_main) in
+    [(if n = n_of_int 0 then "cl-direct-zero" else if order_guard b.bk_main p n then "cl-direct-order-guard"
+      else if n_lt n (n_of_int (List.length ks)) then "cl-direct-partial" else "cl-direct-all")]
+  | OClearPrefixLimit (p, n), Some d ->
+    List.map (fun t -> "cl-tx-" ^ t) (lim_bucket p d.d_main (state_keys_with_prefix cfg_fixed b.bk_main p) n)
+  | ONext k, None -> ["n-direct-" ^ hit (om_next k b.bk_main)]
+  | ONext k, Some d ->
+    let pn = om_next k d.d_main.ups and sn = next_not_deleted k b.bk_main d.d_main.dels in
+    let skipped = (om_next k b.bk_main <> sn) in
+    [(match pn, sn with
+      | None, None -> "n-tx-none" | Some _, None -> "n-tx-pending-only" | None, Some _ -> "n-tx-state-only"
+      | Some a, Some c -> if kltb c a then "n-tx-state-first" else if keqb a c then "n-tx-same" else "n-tx-pending-first")]
+    @ (if skipped then ["n-tx-skips-deleted"] else [])
+  | OEntries, None -> ["e-direct"]
+  | OEntries, Some d -> ["e-tx" ^ (if d.d_main.dels <> [] then "-dels" else "") ^ (if d.d_main.ups <> [] then "-ups" else "")]
+  | OCSet (c, _, _), None -> ["cs-direct-" ^ (match bk_get_child b c with None -> "newchild" | Some _ -> "child")]
+  | OCSet (c, k, _), Some d ->
+    [(match om_get c d.d_children with
+      | None -> if ks_mem c d.d_killed then "cs-tx-recreate-killed" else "cs-tx-first"
+      | Some cd -> if ks_mem k cd.dels then "cs-tx-undelete" else "cs-tx-more")]
+  | OCGet (c, k), None ->
+    [(match bk_get_child b c with None -> "cg-direct-nochild" | Some m -> "cg-direct-" ^ hit (om_get k m))]
+  | OCGet (c, k), Some d ->
+    if child_gone cfg_fixed d c then ["cg-tx-gone"] else
+    let killed = ks_mem c d.d_killed in
+    let st () = if killed then "cg-tx-killed-none" else
+        (match bk_get_child b c with None -> "cg-tx-state-nochild" | Some m -> "cg-tx-state-" ^ hit (om_get k m)) in
+    (match om_get c d.d_children with
+     | None -> [st () ^ "-nochanges"]
+     | Some cd -> (match sd_get cd k with
+         | (Some _, _) -> ["cg-tx-pending"] | (None, true) -> ["cg-tx-deleted"] | _ -> [st ()]))
+  | OCDel (c, k), None ->
+    [(match bk_get_child b c with
+      | None -> "cd-direct-nochild"
+      | Some m -> if not (mem k m) then "cd-direct-absent" else if List.length m = 1 then "cd-direct-lastkey" else "cd-direct")]
+  | OCDel (c, _), Some d -> ["cd-tx" ^ (if ks_mem c d.d_killed then "-killed" else "")]
+  | OCClearPrefix (c, _), None -> ["ccp-direct-" ^ (match bk_get_child b c with None -> "nochild" | Some _ -> "child")]
+  | OCClearPrefix (c, _), Some d ->
+    ["ccp-tx-" ^ (match child_on_state cfg_fixed d b c with
+        | None -> if ks_mem c d.d_killed then "killed" else "nochild"
+        | Some _ -> "child")]
+  | OCClearPrefixLimit (c, p, n), None ->
+    [(match bk_get_child b c with
+      | None -> "ccl-direct-nochild"
+      | Some m -> let ks = keys_with_prefix p (om_keys m) in
+        if n = n_of_int 0 then "ccl-direct-zero"
+        else if n_lt n (n_of_int (List.length ks)) then "ccl-direct-partial"
+        else if List.length ks = List.length m && ks <> [] then "ccl-direct-empties-child" else "ccl-direct-all")]
+  | OCClearPrefixLimit (c, p, n), Some d ->
+    (match child_on_state cfg_fixed d b c with
+     | None -> ["ccl-tx-" ^ (if ks_mem c d.d_killed then "killed" else "nochild") ^ "-unlimited"]
+     | Some m -> List.map (fun t -> "ccl-tx-" ^ t)
+                   (lim_bucket p (child_changes d c) (state_keys_with_prefix cfg_fixed m p) n))
+  | OCNext (c, k), None ->
+    [(match bk_get_child b c with None -> "cn-direct-nochild" | Some m -> "cn-direct-" ^ hit (om_next k m))]
+  | OCNext (c, k), Some d ->
+    if child_gone cfg_fixed d c then ["cn-tx-gone"] else
+    (match om_get c d.d_children with
+     | None -> [(match bk_get_child b c with None -> "cn-tx-nochanges-nochild" | Some _ -> "cn-tx-nochanges-state")]
+     | Some cd ->
+       (match child_on_state cfg_fixed d b c with
+        | None -> ["cn-tx-pending-only-" ^ (if ks_mem c d.d_killed then "killed" else "nochild")]
+        | Some m ->
+          let pn = om_next k cd.ups and sn = next_not_deleted k m cd.dels in
+          [(match pn, sn with
+            | None, None -> "cn-tx-none" | Some _, None -> "cn-tx-pending" | None, Some _ -> "cn-tx-state"
+            | Some a, Some c' -> if kltb c' a then "cn-tx-state-first" else "cn-tx-pending-first")]
+          @ (if om_next k m <> sn then ["cn-tx-skips-deleted"] else [])))
+  | OKill c, None -> ["ck-direct-" ^ (match bk_get_child b c with None -> "nochild" | Some _ -> "child")]
+  | OKill c, Some d ->
+    ["ck-tx" ^ (if om_get c d.d_children <> None then "-drops-changes" else "") ^ (if ks_mem c d.d_killed then "-again" else "")]
+  | OKillLimit (c, lim), None ->
+    [(match bk_get_child b c, lim with
+      | None, _ -> "ckl-direct-nochild" | Some _, None -> "ckl-direct-nil"
+      | Some m, Some n -> if n = n_of_int 0 then "ckl-direct-zero"
+        else if n_lt n (n_of_int (List.length m)) then "ckl-direct-partial" else "ckl-direct-all")]
+  | OKillLimit (c, lim), Some d ->
+    (match child_on_state cfg_fixed d b c, om_get c d.d_children with
+     | None, None -> ["ckl-tx-err"]
+     | mo, _ ->
+       let cur = (match mo with Some m -> om_keys m | None -> []) in
+       (match lim with
+        | None -> ["ckl-tx-nil" ^ (if mo = None then "-nostate" else "")]
+        | Some n -> List.map (fun t -> "ckl-tx-" ^ t) (lim_bucket [] (child_changes d c) cur n)
+                    @ (if mo = None then ["ckl-tx-nostate"] else [])))
+  | OCKeys (c, _), None -> ["cks-direct-" ^ (match bk_get_child b c with None -> "nochild" | Some _ -> "child")]
+  | OCKeys (c, _), Some d ->
+    if child_gone cfg_fixed d c then ["cks-tx-gone"] else
+    (match om_get c d.d_children with
+     | None -> [(match bk_get_child b c with None -> "cks-tx-nochanges-nochild" | Some _ -> "cks-tx-nochanges-state")]
+     | Some cd ->
+       (match child_on_state cfg_fixed d b c with
+        | None -> [if cd.ups = [] then "cks-tx-err-empty" else
+                     "cks-tx-pending-only-" ^ (if ks_mem c d.d_killed then "killed" else "nochild")]
+        | Some m ->
+          ["cks-tx-merged" ^ (if List.exists (fun k -> ks_mem k cd.dels) (om_keys m) then "-dels" else "")
+           ^ (if cd.ups <> [] then "-ups" else "")]))
+
+let rec branches ops s acc =
+  match ops with
+  | [] -> acc
+  | o :: r ->
+    let tg = branch o s in
+    let (x, s') = step cfg_fixed o s in
+    if x = RPanic then tg @ acc else branches r s' (tg @ acc)
+
+(* two child tries with the same non-empty contents in the committed state at some point
+   (the in-memory trie keeps child tries by root hash: fix C08-6) *)
+let rec twins ops s =
+  let ms = List.filter (fun m -> m <> []) (List.map snd s.ts_state.bk_children) in
+  let rec dup = function [] -> false | a :: r -> List.mem a r || dup r in
+  dup ms || (match ops with
+      | [] -> false
+      | o :: r -> let (x, s') = step cfg_fixed o s in if x = RPanic then false else twins r s')
 
 let check inp obs =
   let toks = split_ws inp in
   let ops = List.map parse_op toks in
-  let otoks = split_ws obs in
-  (* model (fixed and pinned) *)
+  (* model (fixed and pinned), rendered for diagnostics *)
   let render cf =
     let (xs, st) = run cf ops ts_init in
     let panicked = List.exists (fun x -> x = RPanic) xs in
@@ -100,26 +268,11 @@ let check inp obs =
     String.concat " " (List.map show_obs xs @
       (if closed && not panicked then [show_final (final_obs st)] else [])) in
   let m_fixed = render cfg_fixed in
-  let m_pinned = render cfg_pinned in
-  let eq = (obs = m_fixed) in
-  (* spec *)
-  let (sx, sst) = srun ops ss_init in
-  let nops = List.length ops in
-  let impl_ops_toks = List.filteri (fun i _ -> i < nops) otoks in
-  let impl_obs = List.map parse_obs impl_ops_toks in
-  let reads_ok = (List.length impl_obs = List.length sx) &&
-                 (norm_list ops impl_obs = norm_list ops sx) in
-  let final_ok, final_detail =
-    if List.length otoks > nops then begin
-      let (m, ch, root) = parse_final (List.nth otoks nops) in
-      let sb = sst.backend in
-      let ok_contents = (sst.levels = []) && m = sb.c_main &&
-                        norm_children ch = norm_children sb.c_children in
-      (ok_contents && root,
-       (if ok_contents then "" else "contents ") ^ (if root then "" else "root "))
-    end else ((sst.levels <> [] || List.exists (fun x -> x = RPanic) sx), "no-final") in
-  let prop = reads_ok && final_ok in
+  let view = (try Some (parse_view obs) with _ -> None) in
+  let eq = (obs = m_fixed) && (match view with Some v -> model_ok v ops | None -> false) in
+  let prop = (match view with Some v -> agrees_b v ops | None -> false) in
   (* first differing read, for the detail *)
+  let (sx, _) = srun ops ss_init in
   let first_diff =
     let rec go i os a b = match os, a, b with
       | o :: r, x :: xr, y :: yr ->
@@ -127,26 +280,77 @@ let check inp obs =
           Printf.sprintf "op#%d %s impl=%s spec=%s" i (List.nth toks i) (show_obs x) (show_obs y)
         else go (i + 1) r xr yr
       | _ -> "" in
-    go 0 ops impl_obs sx in
+    (match view with Some (xs, _) -> go 0 ops xs sx | None -> "unparsable") in
   let depth_max =
     let d = ref 0 and mx = ref 0 in
     List.iter (fun t -> if t = "S" then (incr d; if !d > !mx then mx := !d)
                         else if t = "C" || t = "R" then decr d) toks; !mx in
+  let nops = List.length ops in
   let guards = run_guards cfg_fixed ops ts_init in
   let slug = function FTxLimit -> "tx-limit" | FDirectLimitOrder -> "direct-limit-order" in
   let finding = if prop then "-" else (match guards with g :: _ -> slug g | [] -> "-") in
   let kinds = List.sort_uniq compare (List.map op_name toks) in
   let tags = String.concat "," (List.map (fun k -> "op-" ^ k) kinds @
              [Printf.sprintf "depth%d" depth_max] @
-             List.sort_uniq compare (List.map (fun g -> "guard-" ^ slug g) guards)) in
+             List.sort_uniq compare (List.map (fun g -> "guard-" ^ slug g) guards) @
+             (if twins ops ts_init then ["twin-children"] else []) @
+             List.map (fun t -> "b-" ^ t) (List.sort_uniq compare (branches ops ts_init []))) in
   let detail =
-    if prop && eq then "" else
+    if prop && eq then "" else begin
+      let m_pinned = render cfg_pinned and m_pre7 = render cfg_pre7 in
       Printf.sprintf "%s%s%s%s"
-        (if prop then "" else "PROP: " ^ first_diff ^ " " ^ final_detail ^ "; ")
+        (if prop then "" else "PROP: " ^ first_diff ^ "; ")
         (if eq then "" else "MODEL(fixed)=" ^ m_fixed ^ "; ")
-        (if obs = m_pinned then "pinned-model=observed" else "pinned-model-differs")
-        (if eq || obs = m_pinned then "" else " MODEL(pinned)=" ^ m_pinned) in
+        (if obs = m_pre7 then "pre-C08-7-model=observed" else if obs = m_pinned then "pinned-model=observed"
+         else "pinned-model-differs")
+        (if eq || obs = m_pinned || obs = m_pre7 then "" else " MODEL(pinned)=" ^ m_pinned)
+    end in
   { prop_ok = prop; model_eq = eq; nontrivial = (depth_max > 0 && nops >= 3);
     finding; tags; detail }
 
-let () = run_driver check
+(* ---- vm_compute cross-check: the same two predicates re-evaluated inside Coq on the parsed view *)
+let coq_key k = "(" ^ coq_bytes k ^ ")"
+let coq_list f l = "[" ^ String.concat "; " (List.map f l) ^ "]"
+let coq_opt f = function None -> "None" | Some x -> "(Some " ^ f x ^ ")"
+let coq_kv (k, v) = "(" ^ coq_bytes k ^ ", " ^ coq_bytes v ^ ")"
+let coq_map m = coq_list coq_kv m
+let coq_bool b = if b then "true" else "false"
+let coq_op = function
+  | OStart -> "OStart" | OCommit -> "OCommit" | ORollback -> "ORollback" | OEntries -> "OEntries"
+  | OPut (k, v) -> Printf.sprintf "(OPut %s %s)" (coq_key k) (coq_key v)
+  | OGet k -> "(OGet " ^ coq_key k ^ ")" | ODel k -> "(ODel " ^ coq_key k ^ ")"
+  | OClearPrefix p -> "(OClearPrefix " ^ coq_key p ^ ")"
+  | OClearPrefixLimit (p, n) -> Printf.sprintf "(OClearPrefixLimit %s %s)" (coq_key p) (coq_n n)
+  | ONext k -> "(ONext " ^ coq_key k ^ ")"
+  | OCSet (c, k, v) -> Printf.sprintf "(OCSet %s %s %s)" (coq_key c) (coq_key k) (coq_key v)
+  | OCGet (c, k) -> Printf.sprintf "(OCGet %s %s)" (coq_key c) (coq_key k)
+  | OCDel (c, k) -> Printf.sprintf "(OCDel %s %s)" (coq_key c) (coq_key k)
+  | OCClearPrefix (c, p) -> Printf.sprintf "(OCClearPrefix %s %s)" (coq_key c) (coq_key p)
+  | OCClearPrefixLimit (c, p, n) -> Printf.sprintf "(OCClearPrefixLimit %s %s %s)" (coq_key c) (coq_key p) (coq_n n)
+  | OCNext (c, k) -> Printf.sprintf "(OCNext %s %s)" (coq_key c) (coq_key k)
+  | OKill c -> "(OKill " ^ coq_key c ^ ")"
+  | OKillLimit (c, l) -> Printf.sprintf "(OKillLimit %s %s)" (coq_key c) (coq_opt coq_n l)
+  | OCKeys (c, p) -> Printf.sprintf "(OCKeys %s %s)" (coq_key c) (coq_key p)
+let coq_obs = function
+  | RUnit -> "RUnit" | RErr -> "RErr" | RPanic -> "RPanic"
+  | RVal v -> "(RVal " ^ coq_opt coq_key v ^ ")"
+  | RCount (n, a) -> Printf.sprintf "(RCount %s %s)" (coq_n n) (coq_bool a)
+  | REntries l -> "(REntries " ^ coq_map l ^ ")"
+  | RKeys l -> "(RKeys " ^ coq_list coq_key l ^ ")"
+let coq_final ((m, ch), root) =
+  Printf.sprintf "(%s, %s, %s)" (coq_map m)
+    (coq_list (fun (c, cm) -> "(" ^ coq_bytes c ^ ", " ^ coq_map cm ^ ")") ch) (coq_bool root)
+
+let coq inp obs =
+  match (try Some (parse_view obs) with _ -> None) with
+  | None -> None
+  | Some (xs, fin) ->
+    let ops = List.map parse_op (split_ws inp) in
+    let v = (xs, fin) in
+    (* the verdicts computed by the extracted code must be reproduced by vm_compute *)
+    Some (Printf.sprintf
+      "let ops := %s in let v : impl_view := (%s, %s) in Bool.eqb (model_ok v ops) %s && Bool.eqb (agrees_b v ops) %s"
+      (coq_list coq_op ops) (coq_list coq_obs xs) (coq_opt coq_final fin)
+      (coq_bool (model_ok v ops)) (coq_bool (agrees_b v ops)))
+
+let () = run_driver ~coq check
